@@ -2039,7 +2039,10 @@ public:
     SBEPP_CPP14_CONSTEXPR random_access_iterator&
         operator+=(difference_type n) noexcept
     {
-        ptr += n * block_length;
+        // `n * block_length` in an unsigned 32-bit `block_length` type turns a
+        // negative `n` into a huge forward jump
+        ptr += static_cast<std::ptrdiff_t>(n)
+               * static_cast<std::ptrdiff_t>(block_length);
         index += n;
         return *this;
     }
